@@ -21,15 +21,18 @@ def firstDiff (a b : List Nat) : Option Nat :=
 
 def writeQueueOp : List String → Option String
   | ["wr", _mode, writesS, scriptS] => do
-    let specs ← (writesS.splitOn ",").mapM fun t => (t.drop 1).toNat?
+    -- a spec starting with 'd' is a write addressed to a peer that is gone: dropped by the transport, it produces nothing
+    let toks := writesS.splitOn ","
+    let specs ← toks.mapM fun t => (t.drop 1).toNat?
+    let live := (List.range specs.length).filter fun i => !((toks.getD i "").startsWith "d")
     let script ← (if scriptS == "-" then some [] else (scriptS.splitOn ",").mapM fun t =>
       if t == "B" then some Outcome.block else t.toNat?.map Outcome.cap)
-    let enqs := (List.range specs.length).map fun i => Op.enq i (patternData i (specs.getD i 0))
+    let enqs := live.map fun i => Op.enq i (patternData i (specs.getD i 0))
     let s1 := (enqs ++ script.map Op.sock).foldl step {}
     let s2 := drainAll (specs.length + 4) s1
-    let expected := ((List.range specs.length).map fun i => patternData i (specs.getD i 0)).flatten
+    let expected := (live.map fun i => patternData i (specs.getD i 0)).flatten
     let m := match firstDiff s2.wire expected with | none => "1" | some p => s!"0:{p}"
-    let proms := (List.range specs.length).map fun i =>
+    let proms := live.map fun i =>
       match s2.settled.find? (fun p => p.1 == i) with | some p => s!"ok:{p.2}" | none => "pending"
     let calls := s2.calls.map fun c => s!"{c.1}:" ++ (match c.2 with | some a => toString a | none => "B")
     pure s!"recv={s2.wire.length} expected={expected.length} match={m} promises={if proms.isEmpty then "-" else ",".intercalate proms} calls={if calls.isEmpty then "-" else ",".intercalate calls}"
